@@ -971,6 +971,18 @@ public:
         sandbox_callback_interceptor<detail::rlbox_remove_wrapper_t<T_Ret>,
                                      detail::rlbox_remove_wrapper_t<T_Args>...>;
 
+      // If the plugin refuses the registration (it may have no free slot),
+      // the key recorded above must not stay behind: no sandbox_callback owns
+      // it, so nothing would ever remove it again
+      auto withdraw_key = detail::make_scope_exit([&] {
+        std::lock_guard<std::mutex> lock(callback_lock);
+        auto el =
+          std::find(callback_keys.begin(), callback_keys.end(), unique_key);
+        if (el != callback_keys.end()) {
+          callback_keys.erase(el);
+        }
+      });
+
       auto callback_trampoline = this->template impl_register_callback<
         detail::convert_to_sandbox_equivalent_t<
           detail::rlbox_remove_wrapper_t<T_Ret>,
@@ -978,6 +990,8 @@ public:
         detail::convert_to_sandbox_equivalent_t<
           detail::rlbox_remove_wrapper_t<T_Args>,
           T_Sbx>...>(unique_key, reinterpret_cast<void*>(callback_interceptor));
+
+      withdraw_key.release();
 
       auto tainted_func_ptr = reinterpret_cast<
         detail::rlbox_tainted_opaque_to_tainted_t<T_Ret, T_Sbx> (*)(
